@@ -195,15 +195,109 @@ def _verify_one(args):
     return res
 
 
+def _cache_key(qualname, contracts_mod):
+    """results are a pure function of: the function's module source, every contracts/*.py and every vf/*.py file"""
+    import glob
+    import hashlib
+
+    from . import VERIF
+
+    h = hashlib.sha256()
+    try:
+        mi, fn, canon = S.resolve_function(qualname) if not qualname.startswith("<") else (None, None, qualname)
+        if mi is not None:
+            h.update(mi.text.encode())
+            # inlined helpers / callees live in other modules: include the whole package text for safety
+            for m in S.all_package_modules():
+                h.update(S.load_module(m).sha.encode())
+    except S.SourceError:
+        h.update(b"missing")
+    for f in sorted(glob.glob(os.path.join(VERIF, "contracts", "*.py")) + glob.glob(os.path.join(VERIF, "vf", "*.py"))):
+        with open(f, "rb") as fh:
+            h.update(fh.read())
+    for k in ("VERIF_Z3_TIMEOUT_MS", "VERIF_CVC5_TIMEOUT_S", "VERIF_SCOPE"):
+        h.update((k + os.environ.get(k, "")).encode())
+    h.update(qualname.encode() + contracts_mod.encode())
+    return h.hexdigest()[:24]
+
+
+def _cached(qualname, contracts_mod, compute):
+    """content-addressed cache of per-function results (in $VERIF_CACHE or /verif/.cache); the key covers the source under
+    verification, the contracts and the engine, so a changed tree is always re-verified"""
+    import pickle
+
+    from . import VERIF
+
+    if os.environ.get("VERIF_NO_CACHE"):
+        return compute(), False
+    d = os.environ.get("VERIF_CACHE", os.path.join(VERIF, ".cache"))
+    try:
+        os.makedirs(d, exist_ok=True)
+        path = os.path.join(d, _cache_key(qualname, contracts_mod) + ".pkl")
+        if os.path.exists(path):
+            with open(path, "rb") as f:
+                return pickle.load(f), True
+    except Exception:
+        path = None
+    res = compute()
+    if path and res.status == "ok":
+        try:
+            tmp = path + f".{os.getpid()}.tmp"
+            with open(tmp, "wb") as f:
+                pickle.dump(res, f)
+            os.replace(tmp, path)
+        except Exception:
+            pass
+    return res, False
+
+
 def verify(qualnames, contracts_mod: str, workers=None):
     """Verify the given functions (contracts come from module `contracts_mod` exposing REGISTRY, SPECFUNS)."""
     workers = workers or min(14, os.cpu_count() or 4)
+    cached = {}
+    todo = []
+    for q in qualnames:
+        import pickle
+        from . import VERIF
+
+        d = os.environ.get("VERIF_CACHE", os.path.join(VERIF, ".cache"))
+        pth = os.path.join(d, _cache_key(q, contracts_mod) + ".pkl")
+        if not os.environ.get("VERIF_NO_CACHE") and os.path.exists(pth):
+            try:
+                with open(pth, "rb") as f:
+                    cached[q] = pickle.load(f)
+                    cached[q].from_cache = True
+                    continue
+            except Exception:
+                pass
+        todo.append(q)
+    if cached and not todo:
+        return {q: cached[q] for q in qualnames}
+    qualnames_all = list(qualnames)
+    qualnames = todo
     if len(qualnames) == 1 or workers == 1:
         outs = [_verify_one((q, contracts_mod)) for q in qualnames]
     else:
         with ProcessPoolExecutor(max_workers=min(workers, len(qualnames))) as ex:
             outs = list(ex.map(_verify_one, [(q, contracts_mod) for q in qualnames]))
-    return {r.qualname: r for r in outs}
+    import pickle
+    from . import VERIF
+
+    d = os.environ.get("VERIF_CACHE", os.path.join(VERIF, ".cache"))
+    for r in outs:
+        if r.status == "ok" and not os.environ.get("VERIF_NO_CACHE"):
+            try:
+                os.makedirs(d, exist_ok=True)
+                pth = os.path.join(d, _cache_key(r.qualname, contracts_mod) + ".pkl")
+                tmp = pth + f".{os.getpid()}.tmp"
+                with open(tmp, "wb") as f:
+                    pickle.dump(r, f)
+                os.replace(tmp, pth)
+            except Exception:
+                pass
+    res = {r.qualname: r for r in outs}
+    res.update(cached)
+    return {q: res[q] for q in qualnames_all}
 
 
 def summarize(results) -> dict:
